@@ -6,7 +6,15 @@ from vlib.run import Cfg, run_lines, BUILD, REPO
 KEY = bytes((i * 7 + 3) % 256 for i in range(64))
 
 def vocab():
-    return gen.vocab_from_dump(json.load(open(os.path.join(BUILD, 'dump.json'))))
+    v = gen.vocab_from_dump(json.load(open(os.path.join(BUILD, 'dump.json'))))
+    gen.KEYWORDS = [k for k in v['all'] if k and not k.startswith('$')] or gen.KEYWORDS     # as VALUES these are ordinary literals
+    return v
+
+def deep_lines():
+    return gen.deep_lines()
+
+def keyword_lines():
+    return gen.keyword_value_lines(vocab())
 
 def grammar_lines(rng, n, collide_share=0.0, depth=4):
     v = vocab()
@@ -42,7 +50,7 @@ def corpus_lines():
 def byte_lines(rng, base, n):
     return [(l, {'kind': 'bytes'}) for l in gen.bytes_mutations(rng, base, n)]
 
-REPLS = ['REDACTED', 'X"y\\<é&>', '', 'a b', 'REDACTED_0000', '中', 'n.a. US$ 0.00', '100% %s %d']
+REPLS = ['REDACTED', 'X"y\\<é&>', '', 'a b', 'REDACTED_0000', '中', 'n.a. US$ 0.00', '100% %s %d', 'ma\u017fked@corp.example', '\u212aelvin@lab.io', 'x.y', 'a,b', '~']
 
 def value_cfgs(rng, n, with_ns=True):
     """flag combinations without field-name redaction and without the selective mode"""
